@@ -232,3 +232,37 @@ def context_filter_rule(repo: Repo, rep: Report) -> None:
 
 # truthiness tests on graphs that are deliberate emptiness tests, one reason each
 EXEMPT: dict[tuple[str, str], str] = {}
+
+
+_run_base = run
+
+
+def run(repo: Repo, rep: Report) -> None:  # noqa: F811
+    _run_base(repo, rep)
+    gm = repo.mod("rdflib.graph")
+    # ------------------------------------------------------------------ (h)
+    rep.rule("C02.h-quads-of-a-named-graph-only",
+             "ConjunctiveGraph.quads: Store.triples(pattern, context=c) reports, for every matching triple, ALL graphs that hold it; when the pattern names a graph c the "
+             "loop over those graphs yields only c (a filter on the reported graph), otherwise quads((None, None, None, g1)) also lists the quads other graphs hold for g1's triples", floor=1)
+    qf = gm.func("ConjunctiveGraph.quads")
+    inner = [n for n in own_nodes(qf) if isinstance(n, ast.For) and any(isinstance(p_, ast.For) for p_ in gm.parents(n) if p_ is not qf)]
+    if not inner:
+        raise AnalysisError("ConjunctiveGraph.quads: loop over the reported contexts not found")
+    for l in inner:
+        ctxv = norm(l.target)
+        filt = [n for n in ast.walk(l) if isinstance(n, ast.If) and any(isinstance(c, ast.Compare) and ctxv in {norm(c.left), norm(c.comparators[0])} for c in ast.walk(n.test))]
+        rep.ob("C02.h-quads-of-a-named-graph-only", gm, "ConjunctiveGraph.quads", "for %s in %s: yield" % (ctxv, norm(l.iter)), bool(filt),
+               "reported graphs filtered by the requested one" if filt else
+               "every graph the store reports for a matching triple is yielded, whatever graph the pattern names: ds.quads((None, None, None, g1)) contains (s, p, o, g2) whenever g2 holds a triple that g1 holds too", node=l)
+
+    # ------------------------------------------------------------------ (i)
+    rep.rule("C02.i-write-without-graph-goes-to-default-graph",
+             "ConjunctiveGraph._spoc, on the write path (default=True), never hands the store context=None for a 4-tuple whose graph is None: Store.add with context None files the "
+             "triple under the union context only - it is counted by len() but belongs to no graph, not even the default graph", floor=1)
+    sf = gm.func("ConjunctiveGraph._spoc")
+    four = [n for n in own_nodes(sf) if isinstance(n, ast.If) and "== 4" in norm(n.test)]
+    if not four:
+        raise AnalysisError("_spoc: 4-tuple branch not found")
+    ok = any(isinstance(n, ast.If) and "is None" in norm(n.test) and "default" in norm(n.test) and any(isinstance(a, ast.Assign) and "default_context" in norm(a.value) for a in n.body) for b in four for n in ast.walk(b))
+    rep.ob("C02.i-write-without-graph-goes-to-default-graph", gm, "ConjunctiveGraph._spoc", "4-tuple with graph None on the write path -> default_context", ok,
+           "" if ok else "ds.add((s, p, o, None)) stores the triple with context None: len(ds) == 1 but ds.quads() is empty and the default graph does not contain it", node=four[0])
